@@ -123,7 +123,7 @@ func runC11(c *core.Ctx) {
 			n1b++
 			fa := st.Addr.(*ssa.FieldAddr)
 			_, fresh := fa.X.(*ssa.Alloc)
-			c.Check(fresh, "R1b", core.FuncName(f)+"/store-effect", p.InstrPos(ins), "initialises a freshly allocated MonadIODef", "overwrites the effect of an existing MonadIO ("+core.Path(fa.X)+"): a value already handed out changes its meaning (evaluating the original now runs the composed chain)")
+			c.Check(fresh, "R1b", core.FuncName(f)+"/store-effect", p.InstrPos(ins), "initialises a freshly allocated MonadIODef", "overwrites the effect of an existing MonadIO ("+core.Path(core.FieldOwner(fa))+"): a value already handed out changes its meaning (evaluating the original now runs the composed chain)")
 		})
 	}
 	if n1b == 0 {
